@@ -158,6 +158,8 @@ def handleDisk (blob : String → List Nat) (args : List String) : String × Lis
   | ["disk.list", fl, v, pre] => showDiskOutcome (Disk.list (flavourOf fl) (v == "v") (blob pre)) "/dev/null"
   | ["disk.extract", fl, v, archive, into, pre, outp] =>
       showDiskOutcome (Disk.extract (flavourOf fl) (v == "v") (uncp archive) (if into == "~" then none else some (uncp into)) (blob pre)) outp
+  | ["disk.archivename", fl, archive] =>
+      ((match Disk.checkArchiveName (flavourOf fl) (uncp archive) with | .ok _ => "accepted" | .error _ => "refused"), [])
   | ["disk.setpayload", sec, v] => (hex (Disk.setPayload (blob sec) (blob v)), [])
   | ["dos.fsck", fl, strict, pre, i] => (toString (Spec.Dos.fsck (strict == "1") (sideOfRaw (flavourOf fl) (blob pre) i.toNat!)), [])
   | ["dos.files", fl, pre, i, outp] =>
